@@ -514,7 +514,9 @@ func K15() *Entry {
 	entry := M("LabelEntry", F("key"), F("value"))
 	pair := M("PairEntry", F("key"), F("value", MsgT("LabelEntry")))
 	any := M("Any", F("TypeUrl"), F("Payload", Sc(ir.Bytes)))
-	holder := M("Shelf", F("Title"), F("Labels", MapOf()), F("Entries", MsgT("LabelEntry"), Rep()), F("ByName", MsgT("PairEntry"), MapOf()), F("Extra", MsgT("Any")))
+	holder := M("Shelf", F("Title"), F("Labels", MapOf()), F("Entries", MsgT("LabelEntry"), Rep()), F("ByName", MsgT("PairEntry"), MapOf()), F("Extra", MsgT("Any")),
+		// singular message attributes named like the fields of a map entry, next to maps of the same message
+		F("value", MsgT("PairEntry")), F("key", MsgT("PairEntry"), NonNull()), F("ByKey", MsgT("PairEntry"), MapOf(), NonNull()))
 	// a selected type all of whose declared fields are excluded: its schema consists of injected fields
 	gamma := M("Gamma", F("Secret"), F("Token"))
 	f := file("k15", holder, entry, pair, any, gamma)
